@@ -21,8 +21,16 @@ func verifC23Shard() (*indexData, [3]int) {
 		owner[i] = verifrt.IntRange("owner", 1, 2)
 		b.repoList[i].TenantID = owner[i]
 	}
+	// repository names are only unique per tenant: optionally the third repository carries the
+	// first one's name (ids stay 1..3)
+	verifC23SameName = verifrt.Bool("sameName")
+	if verifC23SameName {
+		b.repoList[2].Name = "r1"
+	}
 	return verifLoad(verifWriteShard(b, "verif-compound.zoekt")), owner
 }
+
+var verifC23SameName bool
 
 // verifC23Ctx: 1, 2 = that tenant; 0 = no tenant in the context; 3 = the system tenant.
 func verifC23Ctx(kind int) context.Context {
@@ -78,16 +86,24 @@ func H_C23_search() {
 		return
 	}
 	for _, f := range res.Files {
-		i := verifRepoIndex(f.Repository)
-		verifrt.Assert(i >= 0 && kind != 0 && owner[i] == kind, "every returned file belongs to the requesting tenant")
+		i := int(f.RepositoryID) - 1
+		verifrt.Assert(i >= 0 && i < 3 && kind != 0 && owner[i] == kind, "every returned file belongs to the requesting tenant")
+	}
+	ownsName := func(name string) bool {
+		i := verifRepoIndex(name)
+		if i < 0 || kind == 0 {
+			return false
+		}
+		if owner[i] == kind {
+			return true
+		}
+		return verifC23SameName && name == "r1" && owner[2] == kind
 	}
 	for name := range res.RepoURLs {
-		i := verifRepoIndex(name)
-		verifrt.Assert(i >= 0 && kind != 0 && owner[i] == kind, "RepoURLs names only the requesting tenant's repositories")
+		verifrt.Assert(ownsName(name), "RepoURLs names only the requesting tenant's repositories")
 	}
 	for name := range res.LineFragments {
-		i := verifRepoIndex(name)
-		verifrt.Assert(i >= 0 && kind != 0 && owner[i] == kind, "LineFragments names only the requesting tenant's repositories")
+		verifrt.Assert(ownsName(name), "LineFragments names only the requesting tenant's repositories")
 	}
 	if k == 0 && kind != 0 {
 		n := 0
@@ -123,8 +139,8 @@ func H_C23_list() {
 		return
 	}
 	for _, e := range rl.Repos {
-		i := verifRepoIndex(e.Repository.Name)
-		verifrt.Assert(i >= 0 && kind != 0 && owner[i] == kind, "only the requesting tenant's repositories are listed")
+		i := int(e.Repository.ID) - 1
+		verifrt.Assert(i >= 0 && i < 3 && kind != 0 && owner[i] == kind, "only the requesting tenant's repositories are listed")
 	}
 	for id := range rl.ReposMap {
 		verifrt.Assert(id >= 1 && id <= 3 && kind != 0 && owner[id-1] == kind, "only the requesting tenant's repositories are listed (map)")
